@@ -47,6 +47,13 @@ theorem norm_fix_orthorhombic (C11 C12 C13 C22 C23 C33 C44 C55 C66 : K) :
   simp only [normalized_orthorhombic]
   congr 1 <;> simp [m6, ctor_C11_C12_C13_C22_C23_C33_C44_C55_C66]
 
+theorem norm_fix_monoclinic (C11 C12 C13 C15 C22 C23 C25 C33 C35 C44 C46 C55 C66 : K) :
+    normalized_monoclinic (m6 (ctor_C11_C12_C13_C15_C22_C23_C25_C33_C35_C44_C46_C55_C66
+        C11 C12 C13 C15 C22 C23 C25 C33 C35 C44 C46 C55 C66))
+      = ctor_C11_C12_C13_C15_C22_C23_C25_C33_C35_C44_C46_C55_C66 C11 C12 C13 C15 C22 C23 C25 C33 C35 C44 C46 C55 C66 := by
+  simp only [normalized_monoclinic]
+  congr 1 <;> simp [m6, ctor_C11_C12_C13_C15_C22_C23_C25_C33_C35_C44_C46_C55_C66]
+
 /-- isotropic: the Hill averages of `ElasticConstants(mu=, K=)` are `mu`, `K` (for any two-sided inverse). -/
 theorem norm_fix_isotropic (mu Kb : K) (hmu : mu ≠ 0) (hK : Kb ≠ 0) (s' : M6 K)
     (hsc : ∀ a d, ∑ b, s' a b * m6 (ctor_mu_K mu Kb) b d = if a = d then 1 else 0) :
